@@ -30,6 +30,8 @@ class ProgCheck(Check):
         fl = rng.choice(cfg["flavours"])
         args = {"prog": gen.prog_text(ops), self.flag: 1, "fp": 0, "obsseed": rng.randrange(1 << 30), "cap": 4000000}
         args.update(cfg.get("extra_args", {}))
+        if rng.random() < 0.25:
+            args["mus"] = rng.choice([2, 3, 5])  # hook H5: BatchUnion chunk size knob
         if fl.startswith("par"):
             args.update({"W": rng.choice(self.par_W), "stay": rng.choice([0, 30, 60, 85, 95]), "own": rng.choice([30, 70, 95]),
                          "seed": rng.randrange(1, 1 << 30), "thr": rng.choice(cfg.get("thr", [64]))})
